@@ -194,6 +194,43 @@ def io_args_case(task):
     return bad
 
 
+def et_args_case(task):
+    """read_data / read_ET_data on an Einstein Toolkit directory leave param,
+    it and vars untouched (vars=[] means 'all available')."""
+    from aurel import reading
+    from refs import etgen
+    vsel, isel, split, restart, layout = task
+    root = runner.scratch_root()
+    bad = []
+    try:
+        shape = (5, 4, 6)
+        bx = {0: etgen.tensor_boxes(shape, (2, 1, 1))}
+        spec = {'simname': 'sim', 'grouped': layout[0], 'proc': layout[1],
+                'ghost': 1, 'variables': ['alp', 'betax', 'betay', 'betaz',
+                                          'gxx', 'gxy', 'gxz', 'gyy', 'gyz',
+                                          'gzz', 'rho'],
+                'shapes': {0: shape},
+                'restarts': [{'its': {0: [0, 128, 256]}, 'boxes': bx},
+                             {'its': {0: [256, 384]}, 'boxes': bx}]}
+        param = etgen.write_sim(root, spec)
+        V = {'empty': [], 'one': ['alpha'], 'tensor': ['betaup3', 'gxx'],
+             'dup': ['betaup3', 'betax']}[vsel]
+        I = {'two': [256, 0], 'one': [128], 'dup': [0, 384, 0]}[isel]
+        for fn in (reading.read_data, reading.read_ET_data):
+            objs = {'param': param, 'it': I, 'vars': V}
+            before = {k: snapshot(v) for k, v in objs.items()}
+            with quiet():
+                fn(param, it=I, vars=V, restart=restart, split_per_it=split)
+            for k, v in objs.items():
+                if snapshot(v) != before[k]:
+                    bad.append((fn.__name__, k))
+    except Exception as ex:      # noqa: BLE001
+        bad.append(('raised', repr(ex)[:150]))
+    finally:
+        shutil.rmtree(root, ignore_errors=True)
+    return bad
+
+
 def plans(tier, seed):
     keys = cc.all_keys()
     full = keys + cc.HELPERS
@@ -267,6 +304,16 @@ def main(tier):
             run.violation(f"C02:{b[0]}:argument-modified:{b[1]}"
                           if b[0] != 'raised' else "C02:io-raised",
                           f"{t}: {b}", {'io': list(t)})
+    et = [(vsel, isel, split, restart, layout)
+          for vsel in ('empty', 'one', 'tensor', 'dup')
+          for isel in ('two', 'one', 'dup')
+          for split in (False, True) for restart in (-1, 0)
+          for layout in ((False, False), (True, True))]
+    for t, bad in zip(et, runner.pmap(et_args_case, et)):
+        for b in bad:
+            run.violation(f"C02:{b[0]}:argument-modified:{b[1]}"
+                          if b[0] != 'raised' else "C02:et-io-raised",
+                          f"Einstein Toolkit read {t}: {b}", {'et_io': list(t)})
     run.sample({'history': ['st_Riemann_down4', 'st_Weyl_down4'],
                 'watched': 'all inputs + every object returned so far, '
                            're-digested after each request'})
@@ -275,7 +322,8 @@ def main(tier):
         'states': total['states'], 'transitions': total['transitions'],
         'traces_validated_against_impl': total['transitions'],
         'histories_pruned': total['pruned'], 'per_plan': per,
-        'over_time_argument_cases': len(ot), 'io_argument_cases': len(io),
+        'over_time_argument_cases': len(ot),
+        'io_argument_cases': len(io) + len(et),
         'rule': "state = (cached keys with ages, count mod period); "
                 "transition = one real request; oracle = byte digests of "
                 "all inputs and all objects handed out so far unchanged",
